@@ -32,6 +32,11 @@ using namespace clang;
 static llvm::cl::OptionCategory Cat("nop2c");
 static llvm::cl::opt<std::string> OutFile("out", llvm::cl::desc("output C file"), llvm::cl::cat(Cat), llvm::cl::init("-"));
 static llvm::cl::opt<std::string> MapFile("map", llvm::cl::desc("output name map (JSON)"), llvm::cl::cat(Cat), llvm::cl::init(""));
+// --hoist=name: locals of that name declared inside a loop body are declared at the top of the function instead (same
+// name, initialised where the declaration statement stood).  Needed for loop contracts: a loop-body local that is written
+// through a pointer on a path that LEAVES the loop (e.g. moved from in `return status;`) is outside CBMC's natural loop
+// and is checked against the function's write set, which only knows function-level locals.
+static llvm::cl::list<std::string> HoistNames("hoist", llvm::cl::desc("hoist loop-body locals of this name to function scope"), llvm::cl::cat(Cat));
 static llvm::cl::opt<bool> LineDirectives("line-directives", llvm::cl::desc("emit #line directives pointing at the C++ source"), llvm::cl::cat(Cat), llvm::cl::init(false));
 static llvm::cl::list<std::string> ExtraEntries("entry", llvm::cl::desc("additional entry functions by qualified-name prefix"), llvm::cl::cat(Cat));
 
@@ -1057,6 +1062,22 @@ struct Lower {
     std::string n = localName(VD);
     Ctx cx;
     std::string s;
+    bool hoist = false;
+    if (loopDepth > 0 && !T->isReferenceType())
+      for (auto& H : HoistNames) if (H == n) hoist = true;
+    if (hoist) {
+      if (hoistedNames.count(n)) dieD("--hoist: two loop-body locals named " + n + " in one function", VD);
+      hoistedNames.insert(n);
+      QualType UT = T.getUnqualifiedType();
+      hoisted += "  " + declare(UT, n) + "; /* hoisted from a loop body */\n";
+      if (VD->hasInit()) {
+        std::string init = initInto(n, UT, VD->getInit(), cx);
+        s = cx.pre + ind(d) + init + ";\n";
+        for (auto it = cx.post.rbegin(); it != cx.post.rend(); ++it) s += ind(d) + *it + "\n";
+      }
+      if (nonTrivialDtor(UT) && !VD->isNRVOVariable()) scopes.back().vars.push_back({n, UT});
+      return s;
+    }
     if (T->isReferenceType()) {
       const Expr* I = VD->getInit();
       if (auto* EW = dyn_cast<ExprWithCleanups>(I)) I = EW->getSubExpr();
@@ -1088,6 +1109,9 @@ struct Lower {
     return s;
   }
   std::set<const VarDecl*> nrvoVars;
+  int loopDepth = 0;
+  std::string hoisted;
+  std::set<std::string> hoistedNames;
 
   std::string loopMarker(int d) {
     std::string m = ind(d) + "/*LOOP " + std::to_string(loopCounter++) + "*/\n";
@@ -1194,7 +1218,9 @@ struct Lower {
       scopes.back().isLoopOrSwitch = true;
       size_t mark = scopes.size();
       (void)mark;
+      loopDepth++;
       s += L + ind(d + 1) + "for (; " + c + "; " + inc + ")\n" + m + body(FS->getBody(), d + 1);
+      loopDepth--;
       scopes.pop_back();
       s += unwindScopes(scopes.size() - 1, d + 1);
       scopes.pop_back();
@@ -1216,7 +1242,9 @@ struct Lower {
       scopes.push_back({});
       scopes.back().isLoopOrSwitch = true;
       scopes.push_back({});
+      loopDepth++;
       std::string b = ind(d + 1) + "{\n" + st(RF->getLoopVarStmt(), d + 2) + body(RF->getBody(), d + 2) + unwindScopes(scopes.size() - 1, d + 2) + ind(d + 1) + "}\n";
+      loopDepth--;
       scopes.pop_back();
       scopes.pop_back();
       s += L + ind(d + 1) + "for (; " + c + "; " + inc + ")\n" + m + b;
@@ -1231,7 +1259,9 @@ struct Lower {
       std::string m = loopMarker(d);
       scopes.push_back({});
       scopes.back().isLoopOrSwitch = true;
+      loopDepth++;
       std::string s = L + ind(d) + "while (" + c + ")\n" + m + body(WS->getBody(), d);
+      loopDepth--;
       scopes.pop_back();
       return s;
     }
@@ -1242,7 +1272,9 @@ struct Lower {
       std::string m = loopMarker(d);
       scopes.push_back({});
       scopes.back().isLoopOrSwitch = true;
+      loopDepth++;
       std::string s = L + ind(d) + "do\n" + m + body(DS3->getBody(), d) + ind(d) + "while (" + c + ");\n";
+      loopDepth--;
       scopes.pop_back();
       return s;
     }
@@ -1335,7 +1367,10 @@ struct Lower {
                        ",\"main\":" + (C.getSourceManager().isInMainFile(C.getSourceManager().getExpansionLoc(FS->getLocation())) ? "true" : "false") + "}");
       return;
     }
-    std::string b = "/* " + curKey + " @ " + loc(F->getLocation()) + " */\n/*FUNCTION " + fnName(F) + "*/\n" + sig + "\n{\n";
+    std::string b = "/* " + curKey + " @ " + loc(F->getLocation()) + " */\n/*FUNCTION " + fnName(F) + "*/\n" + sig + "\n{\n/*HOISTED*/";
+    hoisted.clear();
+    hoistedNames.clear();
+    loopDepth = 0;
     scopes.push_back({});
     if (auto* CD = dyn_cast<CXXConstructorDecl>(F)) {
       for (auto* I : CD->inits()) {
@@ -1397,6 +1432,7 @@ struct Lower {
     }
     scopes.pop_back();
     b += "}\n\n";
+    b.replace(b.find("/*HOISTED*/"), 11, hoisted);
     bodies += b;
     mapFns.push_back("{\"key\":\"" + jsonEsc(curKey) + "\",\"c\":\"" + fnName(F) + "\",\"loc\":\"" + jsonEsc(loc(F->getLocation())) + "\",\"body\":true,\"loops\":" + std::to_string(loopCounter) +
                      ",\"params\":" + params + ",\"main\":" + (C.getSourceManager().isInMainFile(C.getSourceManager().getExpansionLoc(F->getLocation())) ? "true" : "false") + "}");
